@@ -277,6 +277,12 @@ class Ctx:
             rc = 1
         if len(unknown) > 20:
             print(f"  ... and {len(unknown) - 20} further violations")
+        classes = {}
+        for fp, _w, _r in unknown:
+            key = "|".join(fp.split("|")[:2])
+            classes[key] = classes.get(key, 0) + 1
+        if classes:
+            self.coverage["violations_by_class"] = classes
         self.write_evidence(len(unknown))
         shutil.rmtree(self.scratch, ignore_errors=True)
         return rc
